@@ -15,6 +15,7 @@ observed relates to expected (ratio, sign lost, raises ...), so a known-finding 
 """
 import itertools
 import math
+import signal
 import struct
 import time
 from fractions import Fraction
@@ -680,6 +681,15 @@ def fxp_cases(tier, seed, shard):
 # --------------------------------------------------------------------------- driver
 
 JUDGES = {'pattern': judge_pattern, 'c2': judge_c2, 'arith': judge_arith, 'fxp': judge_fxp}
+CASE_TIMEOUT = 30    # seconds; the slowest case on the unchanged tree takes a few milliseconds
+
+
+class Hang(BaseException):
+    """Raised by SIGALRM when one case does not return (BaseException: the judges' `except Exception` must not eat it)."""
+
+
+def _on_alarm(signum, frame):
+    raise Hang()
 
 
 def judge(case):
@@ -715,6 +725,7 @@ def run_check(run, tier, seed, shard):
     run.assume('FixedPoint helper: signed formats (1, iw, fw); truncated product = floor(sx*sy / 2**fw) mod 2**w on the signed values of the raw encodings')
     deadline = time.time() + (500 if tier == 'quick' else 2400)
     sect = {}
+    signal.signal(signal.SIGALRM, _on_alarm)
 
     def sweep(name, cases, nontrivial, key, sample_every):
         e0 = run.evaluations
@@ -726,7 +737,16 @@ def run_check(run, tier, seed, shard):
             if ncases % 256 == 0 and time.time() > deadline:
                 run.inconclusive.append('watchdog hit in section %s after %d cases' % (name, ncases))
                 break
-            n, viols = judge(case)
+            signal.alarm(CASE_TIMEOUT)
+            try:
+                n, viols = judge(case)
+            except Hang:
+                # a helper that loops forever decides nothing: watchdog -> inconclusive, never a silent pass
+                run.inconclusive.append('a helper call did not return within %d s on case %r' % (CASE_TIMEOUT, case))
+                run.extra['hung_case'] = case
+                break
+            finally:
+                signal.alarm(0)
             run.ev(n)
             ncases += 1
             if nontrivial(case):
